@@ -42,11 +42,19 @@ def check_C16(tier, t0):
     # clause e: the finite sub-sweep, enumerated completely in both tiers
     n_sweep = len(eb.sweep_cases())
     sweep, _ = core.run_batch(eb.make_engine, {"seed": seed, "mode": "sweep"}, n_sweep, 64, bud)
+    # bounded sequence sweep: every answer sequence of length <= L over an 8-class alphabet at every metric
+    max_len = 2 if tier == "quick" else 4
+    n_seq = len(eb.seq_cases(max_len))
+    seq, seq_info = core.run_batch(eb.make_engine, {"seed": seed, "mode": "seqsweep", "max_len": max_len}, n_seq, 500, bud)
+    for v in seq.violations.values():
+        v["index"] += n_sweep
+    n_seq_done = seq.evaluations
+    sweep.merge(seq)
     agg, info = core.run_batch(eb.make_engine, {"seed": seed, "mode": "random"}, n, 1000 if tier == "quick" else 5000, bud)
     # sweep violations are reported first (index order); shift random indices behind them
     for v in agg.violations.values():
-        v["index"] += n_sweep
-    sweep_done = sweep.evaluations
+        v["index"] += n_sweep + n_seq
+    sweep_done = sweep.evaluations - n_seq_done
     sweep.merge(agg)
     total = sweep
     sessions = total.counters.get("sessions", 0)
@@ -58,6 +66,10 @@ def check_C16(tier, t0):
     extra = {
         "sweep_e": {"cases": n_sweep, "executed": sweep_done, "exhaustive": sweep_done == n_sweep,
                     "what": "every (version, metric, legal value, spelling in canonical/lower/upper, plus the empty answer for Not Defined)"},
+        "sequence_sweep": {"cases": n_seq, "executed": n_seq_done, "exhaustive": n_seq_done == n_seq, "max_length": max_len,
+                           "what": "every answer sequence of length 1..max_length over an 8-class alphabet (legal-first, legal-last-lower, "
+                                   "empty, garbage, prefix-or-doubled, other-metric-value, padded-legal, wrong-not-defined) served at "
+                                   "every metric of every version while its question is repeated"},
         "faults_fired": dict((k, v) for k, v in total.counters.items() if k.startswith("fault.")),
         "probes": dict((k, v) for k, v in total.counters.items() if k.startswith("probe.")),
         "distinct_states": {"measure": "distinct session digests (configuration + full terminal event log + result)",
@@ -170,10 +182,22 @@ def check_C18(tier, t0):
     seed = core.verif_seed()
     n = scale(20000 if tier == "quick" else 1500000)
     bud = budget(150 if tier == "quick" else 1500)
+    n_sweep = len(eh.sweep_histories())
+    sweep, _ = core.run_batch(eh.make_engine, {"seed": seed, "mode": "sweep"}, n_sweep, 500, bud)
+    sweep_done = sweep.evaluations
     agg, info = core.run_batch(eh.make_engine, {"seed": seed}, n, 250 if tier == "quick" else 2500, bud)
+    for v in agg.violations.values():
+        v["index"] += n_sweep
+    sweep.merge(agg)
+    agg = sweep
     engine = eh.make_engine(seed)
     c = agg.counters
     extra = {
+        "enumerated_sweeps": {"cases": n_sweep, "executed": sweep_done, "exhaustive": sweep_done == n_sweep,
+                              "vectors": len(eh.sweep_vectors()),
+                              "what": "for every representative vector (corner cases + one defined / one Not-Defined metric per group, per version): "
+                                      "every ordered pair (A,B) of accessor-call variants as A,B,A,B; and every as_json variant held x every client "
+                                      "fault kind on it x every accessor-call variant afterwards"},
         "faults_fired": dict((k, v) for k, v in c.items() if k.startswith("fault.")),
         "client_faults": c.get("client_faults", 0),
         "accessor_calls_after_a_client_fault": c.get("accessor_calls_after_a_client_fault", 0),
